@@ -150,10 +150,11 @@ def gen_params(ctx):
                 p = calib.random_params(rng, double, quick=True, nta=nta, nt=nt, nx=int(rng.integers(12, 16)) if nta == 0 else int(rng.integers(20, 26)),
                                         noise=float(rng.choice([0.0, 0.002, 0.01])), ta_on_ref=bool(nta and rng.random() < 0.5))
                 out.append(p)
-            for fix, var in (("gamma", 0.0), ("alpha", 1e-6), ("dalpha" if not double else "alpha+gamma", 1e-6)):
+            combos = [("gamma", 0.0), ("gamma", 1e-3), ("alpha", 1e-6), ("alpha+gamma", 1e-6)] + ([("dalpha", 1e-6), ("gamma+dalpha", 1e-6)] if not double else [])
+            for fix, var in combos:
                 p = calib.random_params(rng, double, quick=True, nta=int(rng.integers(0, 2)), nt=int(rng.integers(1, 4)), nx=int(rng.integers(14, 20)), noise=0.005)
                 p["fix"], p["fix_var"] = fix, var
-                if fix == "alpha" and not double:
+                if "alpha" in fix.split("+") and not double:
                     p["nmatch"] = 0
                 out.append(p)
     return out
